@@ -26,7 +26,10 @@
        C10_remove_file_other_text(_owned), C10_text_is_projection, C10_projection_preorder, C10_file_self_contained,
        C10_step2_owned, C10_history2_owned, C10_reachable2_owned (alphabet op2 of Tree/Script2.v), C10_duplicate_partial,
        C10_serialize_exact, C10_serialize_exact_histories, C10_serialize_exact_reachable, C10_written_somewhere_histories
-       (the serialize side over histories: ArxmlFile::serialize writes exactly the elements attributed to the file)
+       (the serialize side over histories: ArxmlFile::serialize writes exactly the elements attributed to the file),
+       C10_serialize_iff, C10_chars_histories2, C10_serialize_iff_histories, C10_serialize_iff_reachable (the same as an
+       iff, without Recursible: C03's CharsLeaf is carried along the histories),
+       C10_nothing_lost_on_write_histories, C10_nothing_lost_on_write_reachable
    "leaves the content of every other file unchanged": the projection TREE of every other file g (fproj: names, stored
        types, attributes, character data, comments, order) is unchanged (C10_remove_file_other_tree); its TEXT is
        unchanged iff no written element of g loses its whole content: KeepsSome -> same text
@@ -68,7 +71,7 @@
 From AV Require Import Base.Bytes Base.Outcome Hash.HashModel Tree.Heap Tree.Ops Tree.Script Tree.Serialize Tree.Inv.
 From AV Require Import Tree.Files Tree.FilesProofsProj Tree.FilesProofsFrame Tree.FilesProofsAdd Tree.FilesProofsRemove Tree.FilesProofsExact Tree.FilesProofsLast Tree.FilesProofsMove
   Tree.FilesProofsInv Tree.FilesProofsHist Tree.FilesProofsTop Tree.FilesProofsExact2 Tree.FilesProofsOwned Tree.FilesProofsText Tree.FilesProofsLoad Tree.FilesProofsOp2
-  Tree.FilesLoad Tree.FilesProofsMerge Tree.FilesProofsBridge Tree.FilesProofsLoad2 Tree.FilesProofsLoad3 Tree.FilesProofsLoad4 Tree.FilesProofsLoad5 Tree.FilesProofsLoad6 Tree.FilesProofsOp2b Tree.FilesProofsDup Tree.FilesProofsDup2 Tree.FilesProofsDup3 Tree.FilesProofsNames Tree.FilesProofsNames2 Tree.FilesProofsSer.
+  Tree.FilesLoad Tree.FilesProofsMerge Tree.FilesProofsBridge Tree.FilesProofsLoad2 Tree.FilesProofsLoad3 Tree.FilesProofsLoad4 Tree.FilesProofsLoad5 Tree.FilesProofsLoad6 Tree.FilesProofsOp2b Tree.FilesProofsDup Tree.FilesProofsDup2 Tree.FilesProofsDup3 Tree.FilesProofsNames Tree.FilesProofsNames2 Tree.FilesProofsSer Tree.FilesProofsSer2.
 From AV Require Tree.CopyProofsDefs Tree.InvLoad Tree.Load Tree.MergeSpec Tree.MergePure Tree.MergePureProofs Tree.LoadRefineBase Tree.LoadRefinePure Tree.LoadRefineMain Tree.LoadRefineTop.
 From AV Require Import Tree.Script2.
 From AV Require Tree.Index Tree.Copy Xml.Parser Xml.Serializer Xml.RoundTripFile.
@@ -522,6 +525,107 @@ Theorem C10_written_somewhere_histories :
   forall x, In x (w_models w) -> m_files x <> [] ->
   forall i, Reach w (m_root x) i -> exists f, In f (m_files x) /\ Attributed w i f /\ Proj T w (Some f) (m_root x) i.
 Proof. exact written_somewhere_histories. Qed.
+
+(* ---------- the same WITHOUT the hypothesis Recursible: the written elements ARE the attributed ones (iff).
+   C03's CharsLeaf (elements with character content mode have no sub-elements, Tree/InvProofsChars*.v) is an invariant of
+   every step of these histories, and a successful ser_ids has looked up the content mode of every element it visits;
+   so every written element with sub-elements recurses, which is all that "attributed => written" needs.
+   WrittenIff w1 f root text sa: text = header ++ body, body = ser_heap (filter f) from the root, ser_ids = Val l and
+   forall i, In i l <-> Reach w1 root i /\ Attributed w1 i f. ---------- *)
+Theorem C10_serialize_iff :
+  forall (T : tables) (tab_el tab_at tab_en : nametab) (check_fn : N -> list N -> res bool) (float_fmt : N -> list N)
+         (attr_schema_location : N) (f : N) (w : world) (text : list N) (w1 : world),
+  TreeInv w -> FilesInv T w -> InvProofsChars.CharsLeaf T w ->
+  f_serialize T tab_el tab_at tab_en check_fn float_fmt attr_schema_location f w = Val (OK text, w1) ->
+  exists fl x, nth_opt (w_files w) (N.to_nat f) = Some fl /\ nth_opt (w_models w) (N.to_nat (f_model fl)) = Some x /\
+    WrittenIff T tab_el tab_at tab_en float_fmt w1 f (m_root x) text (f_standalone fl).
+Proof. exact serialize_iff_state. Qed.
+
+(* CharsLeaf rides along with TreeInv, FilesInv and FilesOwned over the steps_ok2 histories *)
+Theorem C10_chars_histories2 :
+  forall (T : tables) (tab_el tab_at tab_en : nametab) (check_fn : N -> list N -> res bool)
+         (float_parse : list N -> option N) (float_fmt : N -> list N)
+         (LATEST name_index name_definition_ref attr_schema_location : N) (root_attrs : list (N * cdata))
+         (l : list op2) (w w' : world),
+  TreeInv w -> FilesInv T w -> FilesOwned w -> InvProofsChars.CharsLeaf T w ->
+  steps_ok2 T tab_el tab_at tab_en check_fn float_parse float_fmt LATEST name_index name_definition_ref
+            attr_schema_location root_attrs l w = true ->
+  run_ops2 T tab_el tab_at tab_en check_fn float_parse float_fmt LATEST name_index name_definition_ref
+           attr_schema_location root_attrs l w = Val w' ->
+  TreeInv w' /\ FilesInv T w' /\ FilesOwned w' /\ InvProofsChars.CharsLeaf T w'.
+Proof. exact chars_histories2. Qed.
+
+Theorem C10_serialize_iff_histories :
+  forall (T : tables) (tab_el tab_at tab_en : nametab) (check_fn : N -> list N -> res bool)
+         (float_parse : list N -> option N) (float_fmt : N -> list N)
+         (LATEST name_index name_definition_ref attr_schema_location : N) (root_attrs : list (N * cdata))
+         (l : list op2) (w0 w : world) (f : N) (text : list N) (w1 : world),
+  TreeInv w0 -> FilesInv T w0 -> FilesOwned w0 -> InvProofsChars.CharsLeaf T w0 ->
+  steps_ok2 T tab_el tab_at tab_en check_fn float_parse float_fmt LATEST name_index name_definition_ref
+            attr_schema_location root_attrs l w0 = true ->
+  run_ops2 T tab_el tab_at tab_en check_fn float_parse float_fmt LATEST name_index name_definition_ref
+           attr_schema_location root_attrs l w0 = Val w ->
+  f_serialize T tab_el tab_at tab_en check_fn float_fmt attr_schema_location f w = Val (OK text, w1) ->
+  exists fl x, nth_opt (w_files w) (N.to_nat f) = Some fl /\ nth_opt (w_models w) (N.to_nat (f_model fl)) = Some x /\
+    WrittenIff T tab_el tab_at tab_en float_fmt w1 f (m_root x) text (f_standalone fl).
+Proof. exact serialize_iff_histories. Qed.
+
+(* from the empty world: no hypothesis on the world at all *)
+Theorem C10_serialize_iff_reachable :
+  forall (T : tables) (tab_el tab_at tab_en : nametab) (check_fn : N -> list N -> res bool)
+         (float_parse : list N -> option N) (float_fmt : N -> list N)
+         (LATEST name_index name_definition_ref attr_schema_location : N) (root_attrs : list (N * cdata))
+         (l : list op2) (w : world) (f : N) (text : list N) (w1 : world),
+  steps_ok2 T tab_el tab_at tab_en check_fn float_parse float_fmt LATEST name_index name_definition_ref
+            attr_schema_location root_attrs l empty_world = true ->
+  run_ops2 T tab_el tab_at tab_en check_fn float_parse float_fmt LATEST name_index name_definition_ref
+           attr_schema_location root_attrs l empty_world = Val w ->
+  f_serialize T tab_el tab_at tab_en check_fn float_fmt attr_schema_location f w = Val (OK text, w1) ->
+  exists fl x, nth_opt (w_files w) (N.to_nat f) = Some fl /\ nth_opt (w_models w) (N.to_nat (f_model fl)) = Some x /\
+    WrittenIff T tab_el tab_at tab_en float_fmt w1 f (m_root x) text (f_standalone fl).
+Proof. exact serialize_iff_reachable. Qed.
+
+(* nothing lost on write, over histories, no hypothesis on element types: in every state such a history reaches, every
+   element of a model with files is attributed to a file f of the model, and whenever ArxmlFile::serialize of f succeeds
+   the element is among the elements written (ser_ids) for the text returned *)
+Theorem C10_nothing_lost_on_write_histories :
+  forall (T : tables) (tab_el tab_at tab_en : nametab) (check_fn : N -> list N -> res bool)
+         (float_parse : list N -> option N) (float_fmt : N -> list N)
+         (LATEST name_index name_definition_ref attr_schema_location : N) (root_attrs : list (N * cdata))
+         (l : list op2) (w0 w : world),
+  TreeInv w0 -> FilesInv T w0 -> FilesOwned w0 -> InvProofsChars.CharsLeaf T w0 ->
+  steps_ok2 T tab_el tab_at tab_en check_fn float_parse float_fmt LATEST name_index name_definition_ref
+            attr_schema_location root_attrs l w0 = true ->
+  run_ops2 T tab_el tab_at tab_en check_fn float_parse float_fmt LATEST name_index name_definition_ref
+           attr_schema_location root_attrs l w0 = Val w ->
+  forall x, In x (w_models w) -> m_files x <> [] ->
+  forall i, Reach w (m_root x) i ->
+  exists f, In f (m_files x) /\ Attributed w i f /\
+    forall text w1, f_serialize T tab_el tab_at tab_en check_fn float_fmt attr_schema_location f w = Val (OK text, w1) ->
+      exists fl body ids, nth_opt (w_files w) (N.to_nat f) = Some fl /\
+        text = Serializer.xml_header (f_standalone fl) ++ body /\
+        ser_heap T tab_el tab_at tab_en float_fmt (fuel_of w1) w1 (Some f) (m_root x) 0 false = Val body /\
+        ser_ids T (fuel_of w1) w1 (Some f) (m_root x) = Val ids /\ In i ids.
+Proof. exact nothing_lost_on_write_histories. Qed.
+
+Theorem C10_nothing_lost_on_write_reachable :
+  forall (T : tables) (tab_el tab_at tab_en : nametab) (check_fn : N -> list N -> res bool)
+         (float_parse : list N -> option N) (float_fmt : N -> list N)
+         (LATEST name_index name_definition_ref attr_schema_location : N) (root_attrs : list (N * cdata))
+         (l : list op2) (w : world),
+  steps_ok2 T tab_el tab_at tab_en check_fn float_parse float_fmt LATEST name_index name_definition_ref
+            attr_schema_location root_attrs l empty_world = true ->
+  run_ops2 T tab_el tab_at tab_en check_fn float_parse float_fmt LATEST name_index name_definition_ref
+           attr_schema_location root_attrs l empty_world = Val w ->
+  forall x, In x (w_models w) -> m_files x <> [] ->
+  forall i, Reach w (m_root x) i ->
+  exists f, In f (m_files x) /\ Attributed w i f /\
+    forall text w1, f_serialize T tab_el tab_at tab_en check_fn float_fmt attr_schema_location f w = Val (OK text, w1) ->
+      exists fl body ids, nth_opt (w_files w) (N.to_nat f) = Some fl /\
+        text = Serializer.xml_header (f_standalone fl) ++ body /\
+        ser_heap T tab_el tab_at tab_en float_fmt (fuel_of w1) w1 (Some f) (m_root x) 0 false = Val body /\
+        ser_ids T (fuel_of w1) w1 (Some f) (m_root x) = Val ids /\ In i ids.
+Proof. exact nothing_lost_on_write_reachable. Qed.
 
 (* ---------- load_buffer (OpLoad): what a successful load keeps ----------
    FilesInvW = FilesInvM without rule (c) (a merge makes the membership of every element that only one side has
